@@ -102,11 +102,16 @@ fn steps(ctx: &mut Ctx) {
             None => continue,
         };
         let depth_of = |st: St| fr.needs.iter().chain(fr.pops.iter()).filter(|(s, _)| *s == st).map(|(_, n)| (*n).min(4)).max().unwrap_or(0);
-        let (ni, nf) = (depth_of(St::Int), depth_of(St::Float));
+        let (mut ni, mut nf) = (depth_of(St::Int), depth_of(St::Float));
         if ni == 0 && nf == 0 {
-            continue;
+            // not documented to take a numeric operand: still probe the tops of both stacks, so
+            // that an instruction that is (mis)bound to operand-sized work shows up
+            ni = 1;
+            nf = 1;
+            ctx.rec.set_add("instructions_without_numeric_operands_probed", name);
+        } else {
+            ctx.rec.set_add("instructions", name);
         }
-        ctx.rec.set_add("instructions", name);
         // probes: (is_float, position, value index)
         let mut probes: Vec<(bool, usize, usize)> = vec![];
         for p in 0..ni {
